@@ -186,6 +186,42 @@ def midwide(seed, big=False):
     return out
 
 
+def hugethin(seed, big=False):
+    """Several hundred objects (or properties) and a tiny lattice: cardinalities beyond 256, ties among very
+    large extents, and the transposed shapes."""
+    rng = random.Random(seed * 13 + 1)
+    out = []
+    for n in ([600] + ([1030] if big else [])):
+        out.append(Table(n, 2, [[1] if i < n // 2 else [2] for i in range(n)], f'huge-halves{n}x2'))
+        out.append(Table(n, 3, [[1 + i % 3] + ([3] if i % 7 == 0 else []) for i in range(n)], f'huge-thirds{n}x3'))
+    for n, m in ([(300, 5), (520, 4)] + ([(700, 5)] if big else [])):
+        rows = [[j for j in range(1, m + 1) if rng.random() < 0.5] for _ in range(n)]
+        out.append(Table(n, m, rows, f'huge-rand{n}x{m}'))
+    for t in list(out):
+        cols = [[i + 1 for i in range(t.n) if j in set(t.rows[i])] for j in range(1, t.m + 1)]
+        out.append(Table(t.m, t.n, cols, t.tag + ':T'))
+    return out
+
+
+def twins(seed):
+    """Rows (columns) that are equal except for ONE member shifted by 31, 32, 61, 63 or 64 positions: the same
+    integer modulo 2^31-1 / 2^32 / 2^61-1 / 2^63 / 2^64 patterns that hash- or word-based shortcuts conflate."""
+    out = []
+    for m, shifts in ((70, (61, 64, 32, 31, 63)), (130, (61, 64, 122, 128, 32))):
+        rows = []
+        for k, d in enumerate(shifts):
+            base = {1 + k, 3 + k}
+            rows.append(sorted(base | {4 + k}))          # has property 4+k
+            rows.append(sorted(base | {4 + k + d}))      # has property 4+k+d instead
+        rows.append([1, 2, 3])
+        rows = [[j for j in r if j <= m] for r in rows]
+        t = Table(len(rows), m, rows, f'twins{len(rows)}x{m}')
+        out.append(t)
+        cols = [[i + 1 for i in range(t.n) if j in set(t.rows[i])] for j in range(1, t.m + 1)]
+        out.append(Table(t.m, t.n, cols, t.tag + ':T'))
+    return out
+
+
 def biglat(seed, big=False):
     """Lattices of several hundred to a thousand concepts with wide levels (> 128 / > 256 members)."""
     rng = random.Random(seed * 101 + 9)
@@ -241,8 +277,41 @@ def wide_subsets(n, rng, count=12):
     return out
 
 
+# pairs of DIFFERENT strings that a normalising / case-folding / stripping comparison would conflate
+CONFUSABLE = [('caf\u00e9', 'cafe\u0301'), ('\u00c5', '\u212b'), ('\u03a9', '\u2126'), ('a', 'A'), ('K', '\u212a'),
+              ('\u00df', 'ss'), ('\ufb01', 'fi'), ('\uff11', '1'), ('x', 'x\u200b'), ('\u1e9e', '\u00dfS'),
+              ('\uac00', '\u1100\u1161'), ('o\u0308', '\u00f6'), ('I', '\u0131'), ('\u00b5', '\u03bc')]
+
+
+def confusable_labels(n, m):
+    flat = [x for pair in CONFUSABLE for x in pair]
+    objs, props = [], []
+    # objects get whole pairs from the front, properties whole pairs from the back, and one pair is split
+    # across the two axes
+    i = 0
+    while len(objs) < n:
+        objs.append(flat[i] if i < len(flat) - 8 else f'ob{i}')
+        i += 1
+    k = len(flat) - 1
+    while len(props) < m:
+        props.append(flat[k] if k >= i + 2 else f'pr{k}')
+        k -= 1
+    if i + 1 < k:
+        objs[-1], props[-1] = CONFUSABLE[(i // 2) % len(CONFUSABLE)][0] + '\u0323q', 'unused'
+        a, b2 = 'Ab\u00e9', 'Abe\u0301'
+        objs[-1], props[-1] = a, b2
+    if len(set(objs)) != n or len(set(props)) != m or set(objs) & set(props):
+        objs = [f'c{x}\u00e9' if x % 2 else f'c{x - 1}e\u0301' for x in range(1, n + 1)]
+        props = [f'q{x}\u00c5' if x % 2 else f'q{x - 1}\u212b' for x in range(1, m + 1)]
+    return objs, props
+
+
 def labels_for(n, m, variant=0):
     """Object / property labels (unique, disjoint, no whitespace) whose sort order differs from position order."""
+    if variant == 3:
+        objs, props = confusable_labels(n, m)
+        assert len(set(objs)) == n and len(set(props)) == m and not set(objs) & set(props)
+        return objs, props
     if variant % 3 == 0:        # reversed alphabetical
         objs = [f"{chr(ord('z') - i % 26)}{i // 26 if i >= 26 else ''}o" for i in range(n)]
         props = [f"{chr(ord('Z') - j % 26)}{j // 26 if j >= 26 else ''}P" for j in range(m)]
